@@ -380,7 +380,7 @@ func TestC09(t *testing.T) {
 		return
 	}
 	starts := []uint32{0, 1<<24 - 3, 1<<24 - 2, 1<<24 - 1, 1 << 24, 1<<24 + 1, 1<<24 + 2, 1 << 31, 1<<32 - 2, 1<<32 - 1}
-	vcore.Check(t, vcore.N(400, 2500), func(rt *rapid.T) {
+	vcore.Check(t, vcore.N(1200, 4000), func(rt *rapid.T) {
 		c := Case{
 			MaxRetrans: uint8(rapid.IntRange(0, 3).Draw(rt, "maxretrans")),
 			StartSeq:   rapid.OneOf(rapid.SampledFrom(starts), rapid.Uint32()).Draw(rt, "start"),
